@@ -51,6 +51,7 @@ type KnownFinding struct {
 	What     string `json:"what"`
 	Commit   string `json:"commit,omitempty"`
 	Witness  string `json:"witness,omitempty"`
+	Part     *int   `json:"part,omitempty"` // when set: only this partition of the harness
 }
 
 type Violation struct {
@@ -549,7 +550,14 @@ func (c *CheckRun) finish(t0 time.Time) int {
 		}
 		perHarness = append(perHarness, map[string]interface{}{"harness": tag, "paths": r.Paths, "forks": r.Forks, "queries": r.Queries, "solver_s": round3(r.SolverS), "wall_s": round3(r.WallS), "findings": len(r.Findings), "asserts_reached": r.Asserts})
 		// native validation of sampled path models: the harness must run to "ok"
+		hasOOB := false // a path on which the assembly left its slice is not an "ok" path natively (it faults at the guard page)
+		for _, f := range r.Findings {
+			hasOOB = hasOOB || f.Kind == "asm-oob"
+		}
 		for _, mo := range r.Samples {
+			if hasOOB {
+				break
+			}
 			ro := c.rep.Run(r.Item.Pkg, r.Item.Fn, mo, r.Item.Tier, r.Item.Part, 30*time.Second)
 			if ro.Outcome == "ok" {
 				validated++
@@ -592,9 +600,9 @@ func (c *CheckRun) finish(t0 time.Time) int {
 			// known?
 			isKnown := false
 			for _, k := range known {
-				if k.Status == "known" && k.Property == id && k.Harness == r.Item.Fn && k.Kind == f.Kind && k.Site == f.Site {
+				if k.Status == "known" && k.Property == id && k.Harness == r.Item.Fn && k.Kind == f.Kind && k.Site == f.Site && (k.Part == nil || *k.Part == r.Item.Part) {
 					isKnown = true
-					key := k.Harness + "|" + k.Kind + "|" + k.Site
+					key := k.Harness + "|" + k.Kind + "|" + k.Site + "|" + k.What
 					if !seenKnown[key] {
 						seenKnown[key] = true
 						knownHit = append(knownHit, k.What)
@@ -637,9 +645,9 @@ func (c *CheckRun) finish(t0 time.Time) int {
 				expected = "bytes on fd 1"
 				ok = ro.Stdout > 0
 			case "asm-oob":
-				// an out-of-bounds access of the assembly cannot be observed natively (it stays inside the Go heap); it is
-				// reported when the same run also shows a wrong result natively (the harness's value assertion fails)
-				expected = "wrong result of the routine whose access left its slice"
+				// an out-of-bounds access of the assembly is observed natively as a fault when the harness places the slice
+				// against an inaccessible page (zzGuardCopy), or as a wrong result (the harness's value assertion fails)
+				expected = "fault at the guard page, or a wrong result of the routine whose access left its slice"
 				ok = strings.HasPrefix(ro.Outcome, "assert-failed") || strings.HasPrefix(ro.Outcome, "crash") || strings.HasPrefix(ro.Outcome, "panic")
 			}
 			v := Violation{Property: id, Harness: r.Item.Fn, Pkg: r.Item.Pkg, Part: r.Item.Part, Tier: r.Item.Tier, Kind: f.Kind, Site: f.Site, Where: f.Where, Msg: f.Msg, Stack: f.Stack, Model: f.Model, Input: modelInputHex(f.Model), Expected: expected, Observed: ro.Outcome, Replay: ro}
@@ -710,7 +718,14 @@ func (c *CheckRun) finish(t0 time.Time) int {
 			}
 		}
 	}
+	var notes []string
+	for _, r := range c.results {
+		if r != nil {
+			notes = append(notes, r.Notes...)
+		}
+	}
 	cov := map[string]interface{}{
+		"notes":  notes,
 		"states": max(states, 1), "transitions": max(transitions, 1), "traces_validated_against_impl": validated, "samples": samples,
 		"obligations": max(nobl, 1), "discharged": max(ndis, 0), "checker_cmd": "/usr/bin/z3 -in  (SMT-LIB2 stream, (set-logic QF_UFBV), push/pop; z3 4.8.12)",
 		"trusted_base": append([]string{"go/ssa (x/tools v0.29.0)", "z3 4.8.12", "gosmt symbolic machine (/verif/gosmt)", "environment models of DESIGN.md section 5"}, c.def.Trusted...),
@@ -854,6 +869,9 @@ func runMain(args []string) int {
 		}
 	}
 	fmt.Println("reached:", r.Reached, "asserts:", r.Asserts, "samples:", len(r.Samples))
+	for _, n := range r.Notes {
+		fmt.Println("note:", n)
+	}
 	return 0
 }
 
